@@ -231,3 +231,129 @@ Proof.
     destruct (N.ltb_spec (e - s + lenN (flatten tl)) two64); [|lia].
     f_equal. unfold lenN in *. rewrite flatten_cons, app_length, flat_range_length. lia.
 Qed.
+(* ------------------------------------------------------------------ trim_ranges_by_offset / trim_ranges *)
+Lemma winT_seqN sk tk s n : winT sk tk (seqN s n) = seqN (s + N.of_nat sk) (Nat.min tk (n - sk)).
+Proof. unfold winT. rewrite skipn_seqN, firstn_seqN. reflexivity. Qed.
+
+Lemma flat_range_eq s e : flat_range (s, e) = seqN s (N.to_nat (e - s)).
+Proof. reflexivity. Qed.
+
+Lemma csub_ok a b : b <= a -> csub a b = Ok (a - b).
+Proof. intros H. unfold csub. destruct (N.leb_spec b a); [reflexivity | lia]. Qed.
+Lemma cadd_ok a b : a + b < two64 -> cadd a b = Ok (a + b).
+Proof. intros H. unfold cadd. destruct (N.ltb_spec (a + b) two64); [reflexivity | lia]. Qed.
+
+Lemma trim_by_offset_spec rs : forall lo hi sk tk,
+  sorted_in lo hi rs -> hi < two64 ->
+  exists rs', trim_by_offset rs sk tk = Ok rs'
+    /\ flatten rs' = winT (N.to_nat sk) (N.to_nat tk) (flatten rs)
+    /\ sorted_in lo hi rs'.
+Proof.
+  induction rs as [|[s e] tl IH]; intros lo hi sk tk Hs Hh.
+  - exists []. cbn [trim_by_offset flatten flat_map]. rewrite winT_nil. auto.
+  - cbn [sorted_in] in Hs. destruct Hs as (H1 & H2 & H3). pose proof (sorted_in_le _ _ _ H3) as Hle.
+    cbn [trim_by_offset]. destruct (N.eqb_spec tk 0) as [->|Htk].
+    { exists []. split; [reflexivity|]. split; [reflexivity|]. cbn [sorted_in]. lia. }
+    rewrite csub_ok by exact H2. cbn [obind].
+    rewrite flatten_cons, flat_range_eq, winT_app, winT_seqN, seqN_length.
+    destruct (N.leb_spec (e - s) sk) as [Hsk|Hsk].
+    { destruct (IH e hi (sk - (e - s)) tk H3 Hh) as (rs' & E & F & S). exists rs'. split; [exact E|]. split.
+      - rewrite F. replace (Nat.min (N.to_nat tk) (N.to_nat (e - s) - N.to_nat sk)) with 0%nat by lia.
+        cbn [seqN app length]. f_equal; lia.
+      - eapply sorted_in_weaken; eauto; lia. }
+    destruct (N.eqb_spec sk 0) as [->|Hsk0]; cbn [andb].
+    + destruct (N.leb_spec (e - s) tk) as [Htk2|Htk2].
+      * destruct (IH e hi 0 (tk - (e - s)) H3 Hh) as (rs' & E & F & S). rewrite E. cbn [obind].
+        exists ((s, e) :: rs'). split; [reflexivity|]. split.
+        -- rewrite flatten_cons, flat_range_eq, F. rewrite seqN_length. f_equal; [f_equal; lia|f_equal; lia].
+        -- cbn [sorted_in]. auto.
+      * unfold ssub. rewrite cadd_ok by lia. cbn [obind]. rewrite cadd_ok by lia. cbn [obind].
+        destruct (IH e hi 0 (tk - N.min (e - s - 0) tk) H3 Hh) as (rs' & E & F & S). rewrite E. cbn [obind].
+        eexists. split; [reflexivity|]. split.
+        -- rewrite flatten_cons, flat_range_eq, F. rewrite seqN_length. cbn [fst snd]. f_equal; [f_equal; lia|f_equal; lia].
+        -- cbn [sorted_in]. repeat split; try lia. eapply sorted_in_weaken; eauto; lia.
+    + unfold ssub. rewrite cadd_ok by lia. cbn [obind]. rewrite cadd_ok by lia. cbn [obind].
+      destruct (IH e hi 0 (tk - N.min (e - s - sk) tk) H3 Hh) as (rs' & E & F & S). rewrite E. cbn [obind].
+      eexists. split; [reflexivity|]. split.
+      * rewrite flatten_cons, flat_range_eq, F. rewrite seqN_length. cbn [fst snd]. f_equal; [f_equal; lia|f_equal; lia].
+      * cbn [sorted_in]. repeat split; try lia. eapply sorted_in_weaken; eauto; lia.
+Qed.
+
+Lemma trim_loop_spec rs : forall lo hi sk tk,
+  sorted_in lo hi rs -> hi < two64 ->
+  exists rs', trim_loop rs sk tk = Ok rs'
+    /\ flatten rs' = winT (N.to_nat sk) (N.to_nat tk) (flatten rs)
+    /\ sorted_in lo hi rs'.
+Proof.
+  induction rs as [|[s e] tl IH]; intros lo hi sk tk Hs Hh.
+  - exists []. cbn [trim_loop flatten flat_map]. rewrite winT_nil. auto.
+  - cbn [sorted_in] in Hs. destruct Hs as (H1 & H2 & H3). pose proof (sorted_in_le _ _ _ H3) as Hle.
+    cbn [trim_loop]. rewrite csub_ok by exact H2. cbn [obind].
+    rewrite flatten_cons, flat_range_eq, winT_app, winT_seqN, seqN_length.
+    destruct (N.leb_spec (e - s) sk) as [Hsk|Hsk].
+    { destruct (IH e hi (sk - (e - s)) tk H3 Hh) as (rs' & E & F & S). exists rs'. split; [exact E|]. split.
+      - rewrite F. replace (Nat.min (N.to_nat tk) (N.to_nat (e - s) - N.to_nat sk)) with 0%nat by lia.
+        cbn [seqN app length]. f_equal; lia.
+      - eapply sorted_in_weaken; eauto; lia. }
+    remember (N.min (e - s - sk) tk) as th eqn:Hth.
+    assert (Hp : exists pushed, (if 0 <? th then do a <- cadd s sk; do b <- cadd a th; Ok [(a, b)] else Ok []) = Ok pushed
+                 /\ flatten pushed = seqN (s + sk) (N.to_nat th) /\ sorted_in lo (s + sk + th) pushed).
+    { assert (Hth1 : th <= e - s - sk) by lia. assert (Hth2 : th <= tk) by lia.
+      destruct (N.ltb_spec 0 th).
+      - assert (A1 : s + sk < two64) by lia. assert (A2 : s + sk + th < two64) by lia.
+        rewrite (cadd_ok s sk) by exact A1. cbn [obind]. rewrite (cadd_ok (s + sk) th) by exact A2. cbn [obind]. eexists. split; [reflexivity|]. split.
+        + rewrite flatten_cons, flat_range_eq. cbn [fst snd flatten flat_map]. rewrite app_nil_r. f_equal. lia.
+        + cbn [sorted_in]. lia.
+      - exists []. split; [reflexivity|]. replace th with 0 by lia. split; [reflexivity | cbn [sorted_in]; lia]. }
+    destruct Hp as (pushed & Ep & Fp & Sp). rewrite Ep. cbn [obind].
+    destruct (N.eqb_spec (tk - th) 0) as [Hz|Hz].
+    + exists pushed. split; [reflexivity|]. split.
+      * rewrite Fp. replace (N.to_nat tk - _)%nat with 0%nat by (rewrite seqN_length; lia). rewrite winT_zero, app_nil_r.
+        f_equal; lia.
+      * eapply sorted_in_weaken; eauto; lia.
+    + destruct (IH e hi 0 (tk - th) H3 Hh) as (rs' & E & F & S). rewrite E. cbn [obind].
+      exists (pushed ++ rs'). split; [reflexivity|]. split.
+      * rewrite flatten_app, Fp, F. rewrite seqN_length. f_equal; [f_equal; lia | f_equal; lia].
+      * eapply sorted_in_app; eauto. eapply sorted_in_weaken; eauto; lia.
+Qed.
+
+(* the fragment occupies positions [ps, pe) of the row sequence; bounds = [bs, be) *)
+Lemma trim_ranges_spec rs lo hi ps pe bs be :
+  sorted_in lo hi rs -> hi < two64 -> ps <= pe -> pe - ps = lenN (flatten rs) ->
+  exists rs', trim_ranges rs (ps, pe) (bs, be) = Ok rs'
+    /\ flatten rs' = winT (N.to_nat (bs - ps)) (N.to_nat (be - ps) - N.to_nat (bs - ps)) (flatten rs)
+    /\ sorted_in lo hi rs'.
+Proof.
+  intros Hs Hh Hp Hl. unfold trim_ranges. cbn [fst snd]. rewrite csub_ok by exact Hp. cbn [obind].
+  unfold calculate_fetch, ssub. cbn [fst snd].
+  remember (bs - ps) as sk eqn:Hsk. remember (N.min be pe - N.max ps bs) as tk eqn:Htk.
+  assert (W : winT (N.to_nat sk) (N.to_nat tk) (flatten rs)
+              = winT (N.to_nat sk) (N.to_nat (be - ps) - N.to_nat sk) (flatten rs)).
+  { apply winT_eq_take. unfold lenN in Hl. lia. }
+  destruct ((sk =? 0) && (tk =? pe - ps)) eqn:E.
+  - apply andb_true_iff in E as [E1 E2]. apply N.eqb_eq in E1, E2.
+    exists rs. split; [reflexivity|]. split; [|exact Hs]. rewrite <- W, E1. symmetry. apply winT_all.
+    unfold lenN in Hl. lia.
+  - destruct (trim_loop_spec rs lo hi sk tk Hs Hh) as (rs' & E' & F & S). exists rs'. rewrite <- W. auto.
+Qed.
+
+Lemma apply_skip_take_spec rs lo hi sk tk :
+  sorted_in lo hi rs -> hi < two64 ->
+  exists rs' sk' tk', apply_skip_take rs sk tk = Ok (rs', sk', tk')
+    /\ flatten rs' = winT (N.to_nat sk) (N.to_nat tk) (flatten rs)
+    /\ sorted_in lo hi rs'
+    /\ tk' = tk - lenN (flatten rs')
+    /\ (tk <> 0 -> sk' = sk - lenN (flatten rs)).
+Proof.
+  intros Hs Hh. unfold apply_skip_take. destruct (N.eqb_spec tk 0) as [->|Htk].
+  { exists [], 0, 0. split; [reflexivity|]. split; [reflexivity|]. split; [eapply sorted_in_le; eauto|].
+    split; [reflexivity | congruence]. }
+  rewrite (sum_rows_ok _ _ _ Hs Hh). cbn [obind].
+  destruct (N.leb_spec (lenN (flatten rs)) sk) as [Hsk|Hsk].
+  { exists [], (sk - lenN (flatten rs)), tk. split; [reflexivity|]. split.
+    - symmetry. apply winT_skip_all. unfold lenN in Hsk. lia.
+    - split; [eapply sorted_in_le; eauto|]. split; [cbn; lia | reflexivity]. }
+  destruct (trim_by_offset_spec rs lo hi sk tk Hs Hh) as (rs' & E & F & S). rewrite E. cbn [obind].
+  rewrite (sum_rows_ok _ _ _ S Hh). cbn [obind]. unfold ssub.
+  exists rs', 0, (tk - lenN (flatten rs')). repeat split; auto. intros _. lia.
+Qed.
